@@ -18,6 +18,7 @@ func init() {
 			"R2 every recovering closure in the core routes the recovered value - converted by AsException - to Pipeline.FireChannelException (or, for the goroutine roots, to Close) on every path of its non-nil branch, only skips routing on the channel-already-closed side, and never re-panics; invokeMethod closes the channel for a non-timeout net.Error found with errors.As; " +
 			"R3 every goroutine root started by go-netty (go, Executor.Exec, time.AfterFunc) from which a delivery or transport call is reachable is recover-guarded from its first instruction; R4 AsException returns the very error value for errors and nil for nil; utils.Assert* panic with the error value itself; " +
 			"R5 no error result of transport.Write/Writev/Flush in the core is dropped. " +
+			"ALSO: assert helpers return normally only for a nil error; FireChannelException fires on every path (imports listed in RULES.md). " +
 			"DOES NOT DECIDE: behaviour when exception handlers themselves panic (excluded by the property), usability of the channel after a swallowed read error, user code outside deliveries (initialisers, Async callbacks).",
 		Assumptions: []string{"exception handlers do not panic (property precondition)"},
 		Run:         runC07,
